@@ -223,8 +223,9 @@ def c20(run, replay):
     # a handler that keeps reading after EOF while the next call's upload (which arrived after its own was complete) is being consumed
     for tr in ("ws", "http"):
         for L2 in ([64, 5000] if thorough else [rnd.choice([64, 5000])]):
-            scen.append({"transport": tr, "order": "free", "calls": [{"len": 100, "pattern": "pasteofpeer", "src": "mem"},
-                                                                   {"len": L2, "pattern": "small", "src": "slow", "after_eof_of": 1}]})
+            for procs in (1, 1, 0, 0):      # repeated, with one P and with all: per-P caches make reuse of a freed object a matter of placement
+                scen.append({"transport": tr, "order": "free", "procs": procs,
+                             "calls": [{"len": 100, "pattern": "pasteofpeer", "src": "mem"}, {"len": L2, "pattern": "small", "src": "slow", "after_eof_of": 1}]})
     # handlers that wait for each other before reading: every upload must be able to proceed independently
     for k in ([3, 4, 4] if thorough else [3, 4]):
         scen.append({"transport": rnd.choice(["ws", "http"]), "order": "free",
@@ -418,11 +419,20 @@ def c02(run, replay):
     for i in range(4 if not thorough else 12):
         scen.append({"sc": "c02.stress", "args": {"n": rnd.choice([16, 64]), "transport": "ws", "cancel": True, "procs": 1, "p": 0.3,
                                                   "delay": rnd.sample(HOOK_POINTS_REQ, 6)}})
+    # equally long large requests back to back; many callers giving up at the moment the connection is lost
+    for i in range(2 if not thorough else 6):
+        scen.append({"sc": "c02.stress", "args": {"n": rnd.choice([16, 32]), "transport": "ws", "allbigreq": True, "reqsize": rnd.choice([40000, 70000, 200000]),
+                                                  "procs": 1 if i % 2 == 0 else 0}})
+    scen.append({"sc": "c03.cancelkill", "args": {"n": 200, "skewus": 200}})
     # a request that cannot be encoded is issued while others are in flight
     for n, bad in ((3, 1), (4, 2)):
         scen.append({"sc": "c02.badwrite", "args": {"n": n, "bad": bad}})
     trace, viol = run_ws_scenarios(run, wd, scen, "c02")
     report_ws(run, trace, viol, "C02", scen, "scenario")
+    for v in viol:      # "every call returns exactly once": also when all callers give up while the connection is being lost
+        if v[1] == "C03" and v[2] == "call-never-returned" and 0 < v[0] <= len(scen) and scen[v[0] - 1]["sc"] in ("c03.cancelkill", "c02.stress"):
+            run.violation("scenario %s: call-never-returned" % scen[v[0] - 1]["sc"], "call-never-returned",
+                          {"property": "C02", "scenario": scen[v[0] - 1], "clause": v[2], "call": v[3]})
     binding_pass(run, wd, [s for s in scen if s["sc"] != "c02.stress" or s["args"]["n"] <= 16], "c02", limit=12 if not thorough else 120)
     run.cov["distinct_nontrivial"] = len(set(json.dumps(s, sort_keys=True) for s in scen))
     run.cov["rule"] = "scenarios as listed in assumptions; distinct = distinct scenario descriptions (kind, permutation / script, transport, perturbation set)"
@@ -456,6 +466,18 @@ def fault_scenarios(rnd, thorough):
     for traffic in (False, True):
         for window in ((False, True) if thorough else (True,)):
             scen.append({"sc": "c03.fault", "args": {"style": "stall", "window": window, "traffic": traffic, "errors": rnd.random() < 0.5, "sub": rnd.random() < 0.3}})
+    # ... falling silent inside the payload of a server-to-client frame, or in one direction only (half-open link)
+    for style in ("stallmid", "halfopen"):
+        for window in ((False, True) if thorough else (True,)):
+            scen.append({"sc": "c03.fault", "args": {"style": style, "frame": rnd.choice([1, 2, 3]), "window": window, "traffic": rnd.random() < 0.5,
+                                                     "errors": rnd.random() < 0.5, "sub": False}})
+    # the connection is lost several times in a row with calls in flight each time; many callers give up at the moment of a loss
+    scen.append({"sc": "c03.repeat", "args": {"losses": 3, "errors": rnd.random() < 0.5}})
+    scen.append({"sc": "c03.repeat", "args": {"losses": 2, "close": True}})
+    if thorough:
+        scen.append({"sc": "c03.repeat", "args": {"losses": 5}})
+    for n, skew in ((60, 0), (200, 300)):
+        scen.append({"sc": "c03.cancelkill", "args": {"n": n, "skewus": skew}})
     scen.append({"sc": "trap.staledelete", "args": {}})     # TLC counterexample of WsRpc_c03_nostalefix.cfg, forced with gates
     for errors in (False, True):
         for hold in ([1, 20, 60] if thorough else [20]):
@@ -484,6 +506,8 @@ def outage_scenarios(rnd, thorough):
     for nc, keep in ((True, False), (False, True), (True, True)):
         scen.append({"sc": "c05.outage", "args": {"faileddials": rnd.choice([1, 2]), "errors": rnd.random() < 0.5, "second": False, "style": rnd.choice(["fin", "rst"]),
                                                   "minus": 2000, "maxus": 10000, "nc": nc, "keepalive": keep, "healedphase": keep}})
+    # the server says goodbye properly (close frame, normal closure): still a lost connection the client recovers from
+    scen.append({"sc": "c05.outage", "args": {"faileddials": 1, "errors": rnd.random() < 0.5, "second": False, "style": "close1000", "minus": 2000, "maxus": 10000}})
     scen.append({"sc": "c05.outage", "args": {"noreconnect": True, "errors": False}})
     scen.append({"sc": "c05.outage", "args": {"noreconnect": True, "errors": True}})
     return scen
@@ -549,8 +573,17 @@ def c04(run, replay):
     for kind in ("unary", "retry", "notify"):
         for warm in ([1, 3] if thorough else [1]):
             scen.append({"sc": "c04.httpkill", "args": {"kind": kind, "warm": warm}})
+    scen.append({"sc": "c02.stress", "args": {"n": 24, "transport": "ws", "allbigreq": True, "reqsize": 48000, "procs": 1}})
+    scen.append({"sc": "c02.stress", "args": {"n": 24, "transport": "ws", "allbigreq": True, "reqsize": 48000}})
+    # the HTTP transport (HttpCall.tla): a plain POST is never re-sent; a replayable request (seeded design defect) executes twice
+    run.model_check(wd, "HttpCall.tla", "HttpCall.cfg", timeout=300)
+    run.model_check(wd, "HttpCall.tla", "HttpCall_retry.cfg", timeout=300)
+    r = run.tlc(wd, "HttpCall.tla", "HttpCall_replay.cfg", timeout=300, tag="model_runs")
+    if r["violated"] != "AtMostOnce":
+        raise vp.ToolFailure("self-test: HttpCall with a replayable request should violate AtMostOnce, got %s" % r["violated"])
     trace, viol = run_ws_scenarios(run, wd, scen, "c04", timeout=3000)
     report_ws(run, trace, viol, "C04", scen, "scenario")
+    http_call_binding(run, wd, trace)
     run.cov["distinct_nontrivial"] = len(set(json.dumps(s, sort_keys=True) for s in scen))
     run.cov["rule"] = "C03 fault scenarios + fault-free ws/http runs; distinct = distinct descriptions"
     for s in scen[:2] + scen[-2:]:
@@ -639,6 +672,10 @@ def c06(run, replay):
     r = run.tlc(wd, "SrvConnMC.tla", "SrvConn_cancelany.cfg", timeout=600, tag="model_runs")
     if r["violated"] not in ("CancelHasCause", "CancelExact"):
         raise vp.ToolFailure("self-test: SrvConn with a cancel-everything executor should violate CancelHasCause / CancelExact, got %s" % r["violated"])
+    # the caller of a subscription gives up while the connection goroutine is stuck in a write, then the response arrives (gates + back-pressure)
+    scen.append({"sc": "trap.subcancel", "args": {}})
+    # a method whose only result is the channel: its handler context lives as long as the stream
+    scen.append({"sc": "c07.stream", "args": {"lens": [5, 5], "consumers": ["slow", "fast"], "shapes": ["only", "only"], "unary": 1}})
     trace, viol = run_ws_scenarios(run, wd, scen, "c06", timeout=3000)
     report_ws(run, trace, viol, "C06", scen, "cancel")
     run.cov["distinct_nontrivial"] = len(set(json.dumps(s, sort_keys=True) for s in scen))
@@ -664,6 +701,9 @@ def stream_scenarios(rnd, thorough):
     for o in (orders if thorough else rnd.sample(orders, 2)):
         scen.append({"sc": "c07.stream", "args": {"lens": [8, 8, 8, 8], "consumers": ["fast"] * 4, "closeorder": list(o), "unary": 1, "staged": True}})
     scen.append({"sc": "c07.stream", "args": {"lens": [10, 10, 10, 10, 10], "consumers": ["fast"] * 5, "closeorder": rnd.sample([3, 13, 23, 33, 43], 5), "unary": 1, "staged": True}})
+    # a method whose only result is the channel; a neighbouring stream with a value that cannot be encoded
+    scen.append({"sc": "c07.stream", "args": {"lens": [5, 33, 5], "consumers": ["fast", "slow", "fast"], "shapes": ["only", "", "only"], "unary": 2}})
+    scen.append({"sc": "c07.stream", "args": {"lens": [6, 6, 6], "consumers": ["fast", "fast", "slow"], "nan": True, "unary": 2}})
     # far beyond every internal buffer size, with a subscriber that never reads
     scen.append({"sc": "c07.stream", "args": {"lens": [70000, 20], "consumers": ["stalled", "fast"], "unary": 3, "quietwire": True, "waitms": 20000}})
     return scen
@@ -690,6 +730,10 @@ def c07(run, replay):
         run.model_check(wd, "SrvConnMC.tla", "SrvConn_SS.cfg", timeout=2400)
     trace, viol = run_ws_scenarios(run, wd, scen, "c07", timeout=3000)
     report_ws(run, trace, viol, "C07", scen, "stream")
+    for v in viol:      # mutual independence: nothing on a streaming connection (subscription or ordinary call) may stay blocked
+        if v[1] == "C03" and v[2] == "call-never-returned" and 0 < v[0] <= len(scen):
+            run.violation("stream %s: call-blocked-on-a-streaming-connection" % scen[v[0] - 1]["sc"], "call-blocked-on-a-streaming-connection",
+                          {"property": "C07", "scenario": scen[v[0] - 1], "clause": v[2], "call": v[3]})
     binding_pass(run, wd, [s for s in scen if max(s["args"].get("lens") or [0]) <= 200], "c07", limit=6 if not thorough else 30)
     run.cov["distinct_nontrivial"] = len(set(json.dumps(s, sort_keys=True) for s in scen))
     run.cov["rule"] = "stream scenarios as listed in assumptions; distinct = distinct descriptions"
@@ -732,6 +776,8 @@ def c08(run, replay):
     scen += [s for s in stream_scenarios(rnd, False) if "closeorder" in s["args"]]
     scen.append({"sc": "trap.closerace", "args": {}})
     scen.append({"sc": "trap.chanclose", "args": {}})       # the executor closing a sink while the main loop sweeps the channel handlers
+    for gap in (1, 10):         # a subscription of the previous connection is cancelled while its channel id is in use again
+        scen.append({"sc": "c08.reuse", "args": {"gapms": gap}})
     trace, viol = run_ws_scenarios(run, wd, scen, "c08", timeout=3000)
     report_ws(run, trace, viol, "C08", scen, "termination")
     binding_pass(run, wd, [s for s in scen if s["args"].get("instant") != "streaming"], "c08", limit=10 if not thorough else 80)
@@ -765,6 +811,7 @@ def c18(run, replay):
         scen.append({"sc": "c18.close", "args": {"at": i, "outage": True, "runms": rnd.choice([6, 12, 25]), "afterms": 60}})
     perturb(rnd, scen, CHAN_POINTS + HOOK_POINTS_REQ, 0.3)
     scen.append({"sc": "c18.badchan", "args": {}})
+    scen.append({"sc": "c18.backlog", "args": {"n": 40000}})      # closed with tens of thousands of values unread
     scen.append({"sc": "trap.closerace", "args": {}})
     scen.append({"sc": "c18.otherclosers", "args": {}})
     trace, viol = run_ws_scenarios(run, wd, scen, "c18", timeout=3000)
@@ -811,6 +858,11 @@ def c13(run, replay):
     for payload in ("string", "error", "nilptr"):
         scen.append({"sc": "c13.panic", "args": {"kind": "unary", "payload": payload, "transport": "ws", "siblings": True, "twice": True, "procs": 1,
                                                  "p": 0.8, "delay": ["h.resp.pre", "lazy.acquire.pre", "h.ret", "wl.enter"]}})
+    # with the server's tracer option switched on (the tracer is told about panicking calls too)
+    for kind in ("unary", "notify", "sub"):
+        scen.append({"sc": "c13.panic", "args": {"kind": kind, "payload": rnd.choice(["string", "nilptr", "error"]), "transport": "ws", "siblings": True,
+                                                 "twice": rnd.random() < 0.5, "procs": 0, "tracer": True}})
+    scen.append({"sc": "c13.panic", "args": {"kind": "unary", "payload": "string", "transport": "http", "siblings": True, "twice": False, "procs": 0, "tracer": True}})
     # net/http's own abort sentinel as payload, on every call kind; a handler that panics after its caller has cancelled
     for kind in ("unary", "notify", "sub"):
         for tr in ("ws", "http"):
@@ -916,6 +968,9 @@ def c15(run, replay):
             scen.append({"sc": "c15.end", "args": {"cause": cause, "mix": ["unary"], "gatereader": True, "reverse": True}})
             scen.append({"sc": "c15.end", "args": {"cause": cause, "mix": ["stream", "notify"], "gatereader": True, "reverse": True}})
         scen.append({"sc": "c15.end", "args": {"cause": cause, "mix": ["unary"], "bigblocked": True, "reverse": True}})
+        # ... the peer only half-closes (FIN) while the writer is blocked; the end comes while the reader is inside a frame body
+        scen.append({"sc": "c15.end", "args": {"cause": "halffin", "mix": ["unary", "notify"], "bigblocked": True, "reverse": True}})
+        scen.append({"sc": "c15.end", "args": {"cause": cause, "mix": ["unary"], "partial": True, "noping": True, "reverse": True}})
         # ... and streaming handlers hand over their channels while the forwarder cannot make progress
         scen.append({"sc": "c15.end", "args": {"cause": cause, "mix": ["stream"], "bigblocked": True, "latesubs": 2, "reverse": True}})
     perturb(rnd, [s for s in scen if not s["args"].get("gatereader")], ["rd.msg.pre", "rd.next.pre", "main.incoming", "main.ctxdone", "closeinflight.pre", "closechans.pre", "exec.pop", "lazy.acquire.pre",
@@ -993,6 +1048,10 @@ def c17(run, replay):
             for bh in ("idle", "steady", ""):
                 scen.append({"sc": "c17.keepalive", "args": {"pingms": p, "timeoutms": t, "srvpingms": srvping, "blackhole": bh, "afterheal": bh != "",
                                                              "longx": rnd.choice([1.5, 3, 4]), "idlex": rnd.choice([2, 3])}})
+    # a large response written to a peer that stops reading for longer than the ping handler is willing to wait for the writer
+    for srvping in ((-1, 20) if thorough else (-1,)):
+        scen.append({"sc": "c17.keepalive", "args": {"pingms": 50, "timeoutms": 4000, "srvpingms": srvping, "blackhole": "", "stallwritems": 1600,
+                                                     "longx": 0.05, "idlex": 0.05}})
     trace, viol = run_ws_scenarios(run, wd, scen, "c17", timeout=3000)
     report_ws(run, trace, viol, "C17", scen, "keepalive")
     run.cov["distinct_nontrivial"] = len(set(json.dumps(s, sort_keys=True) for s in scen))
@@ -1218,3 +1277,54 @@ def srv_binding(run, wd, per, scen, tag, selftest=True):
             run.cov["binding"][tag + "/server"]["selftest_rejects_corrupted_traces"] = ok
             if not ok:
                 raise vp.ToolFailure("binding self-test: a corrupted server trace was accepted by SrvConnTrace")
+
+
+def http_call_binding(run, wd, trace):
+    """API-level binding of HttpCall.tla: the call under test (token 1) of every c04.httpkill scenario, one segment each."""
+    import shutil
+    import re as _re
+    segs, cur, name = [], None, None
+    for e in trace:
+        ev = e.get("ev")
+        if ev == "reset":
+            name = e.get("name")
+            cur = None
+            if name == "c04.httpkill":
+                cur = [{"e": "seg", "retry": (e.get("args") or {}).get("kind") == "retry"}]
+                segs.append(cur)
+        elif cur is not None:
+            if ev == "CallStart" and e.get("call") == 1:
+                cur.append({"e": "start"})
+            elif ev == "HandlerStart" and e.get("call") == 1:
+                cur.append({"e": "exec"})
+            elif ev == "HandlerEnd" and e.get("call") == 1:
+                cur.append({"e": "hret"})
+            elif ev == "WireFault":
+                cur.append({"e": "fault"})
+            elif ev == "CallEnd" and e.get("call") == 1:
+                cur.append({"e": "end", "outcome": e.get("outcome")})
+    if not segs:
+        return
+    d = os.path.join(wd, "hcbind")
+    os.makedirs(d, exist_ok=True)
+    for f in ("HttpCall.tla", "HttpCallTrace.tla", "HttpCallTrace.cfg"):
+        shutil.copy(os.path.join(vp.SPEC, f), d)
+    n = 0
+    with open(os.path.join(d, "hc.ndjson"), "w") as f:
+        for sg in segs:
+            for line in sg:
+                f.write(json.dumps(line) + "\n")
+                n += 1
+    r = run.tlc(d, "HttpCallTrace.tla", "HttpCallTrace.cfg", workers=1, timeout=300)
+    m = _re.search(r'"HIGHWATER", (\d+)', r["out"])
+    hw = int(m.group(1)) if m else 0
+    ok = hw == n + 1 and r["violated"] is None
+    run.cov.setdefault("binding", {})["c04/http"] = {"segments": len(segs), "events": n, "accepted": ok}
+    if ok:
+        run.cov["traces_validated_against_impl"] += len(segs)
+    elif r["violated"] == "TraceInvs":
+        pass    # more than one execution of an untagged call: already a verdict of the Obs clause executed-more-than-once
+    else:
+        run.cov["drift"] += 1
+        print("DRIFT property=%s binding: the HTTP call of a c04.httpkill scenario is not a behaviour of HttpCall.tla (trace line %d); "
+              "verdicts come from the Obs predicates" % (run.prop, hw))
